@@ -168,6 +168,27 @@ def job_emit(job):
                             if not good:
                                 _v(viols, "priority-roundtrip", "peer saw %s for send_headers(%d, priority %r,%r,%r)" % (
                                     po.brief(), hsid, w, dep2, ex), case, via="send_headers")
+    # ---- priority arguments given with TRAILERS on an existing stream (clients): sent and reported like any other
+    if client and state == "open" and sids[0] == 1:
+        for w in (None, 1, 16, 200, 256):
+            for dep in (None, 0, 3, 2 ** 31 - 1):
+                for ex in (None, False, True):
+                    if w is None and dep is None and ex is None:
+                        continue
+                    conn = pickle.loads(blob)
+                    o = H.call(conn, "send_headers", 1, H.ni(H.TRAILERS), end_stream=True, priority_weight=w, priority_depends_on=dep,
+                               priority_exclusive=ex)
+                    n += 1
+                    nt += 1
+                    outcomes["trailers+priority:" + o.kind] = outcomes.get("trailers+priority:" + o.kind, 0) + 1
+                    want = (dep or 0, w if w is not None else 16, bool(ex))
+                    case = {"fam": "emit", "client": client, "state": state, "sid": 1, "w": w, "dep": dep, "ex": ex, "via": "trailers"}
+                    if o.kind != "ok":
+                        _v(viols, "prioritize-acceptance", "send_headers(1, trailers, priority %r,%r,%r) -> %s" % (w, dep, ex, o.brief()), case,
+                           role="client", expected="ok", got=o.exc_name, via="trailers")
+                    elif not (len(o.frames) == 1 and o.frames[0].type == wire.HEADERS and o.frames[0].f["prio"] == want and o.frames[0].f["es"]):
+                        _v(viols, "priority-frame-fields", "send_headers(1, trailers, priority %r,%r,%r) emitted %s, expected priority %r" % (
+                            w, dep, ex, o.brief(), want), case, via="trailers")
     return {"evaluations": n, "outcomes": outcomes, "nontrivial": nt, "violations": list(viols.values()),
             "samples": [{"family": "emit", "role": "client" if client else "server", "state": state,
                          "call": "prioritize(%d, weight=256, depends_on=2147483647, exclusive=True)" % sids[0]}]}
